@@ -13,7 +13,7 @@ from sa.report import Report  # noqa: E402
 
 
 def run_property(prop, tier='quick', overrides=None, quiet=False, only=None,
-                 base=None, evidence=True, seed=0):
+                 base=None, evidence=True, seed=0, census=True):
     """Returns (exit status, Report)."""
     mod = importlib.import_module('rules.' + prop)
     R = Report(prop, tier, quiet=quiet, only=only)
@@ -26,6 +26,9 @@ def run_property(prop, tier='quick', overrides=None, quiet=False, only=None,
                     R.error('parse', 'PARSE', rel, 'file parses', err)
         R.info['analysed'] = ix.stats()
         mod.run(ix, R)
+        if census:
+            from sa.branches import census as branch_census
+            branch_census(ix, R, {o.site for o in R.obls if '::' in o.site})
         extra = {}
         R.n_quick = len(R.obls)
         if tier == 'thorough' and hasattr(mod, 'run_thorough'):
